@@ -194,7 +194,7 @@ def run(ctx):
               'a description replaces the registered one iff none is registered or the registered one is older',
               'registration reached=%s in scenario %s' % ((probs[0][2], probs[0][1]) if probs else ('', '')))
     lpaths2 = paths_of(repo, f_load, unroll=2, may_raise=None)
-    early = [p for p in lpaths2 if any(e.kind == 'loop-break' for e in p.events) or any(e.kind == 'return' and e.loops for e in p.events)]
+    early = [p for p in lpaths2 if any(e.kind == 'loop-break' for e in p.events) or any(e.kind == 'return' and e.loops and e.func is f_load for e in p.events)]
     ctx.check(not early, 'C07.3', 'load:every-interface-considered', f_load.loc(), 'the loop over a file\'s interfaces is never left early: each interface takes part in the version contest on its own',
               'load() can stop in the middle of a file (%s): later interfaces of that file are never registered, so the outcome depends on the loading order' % (early[0].describe()[:160] if early else ''))
     nst = 0
@@ -204,7 +204,9 @@ def run(ctx):
                 nst += 1
                 m = re.match(r'^interfaces\[(.+)\]$', e.target)
                 k, v = m.group(1), norm(e.value)
-                ctx.check(bool(re.match(r'^<elem\d+ of .*\.interfaces\.items\(\)>\[0\]$', k)) and v == k[:-3] + '[1]', 'C07.3', 'load:registers-under-own-name', f_load.loc(e.node),
+                items_form = bool(re.match(r'^<elem\d+ of .*\.interfaces\.items\(\)>\[0\]$', k)) and v == k[:-3] + '[1]'
+                values_form = bool(re.match(r'^<elem\d+ of .*\.interfaces\.values\(\)>\.name$', k)) and v == k[:-len('.name')]
+                ctx.check(items_form or values_form, 'C07.3', 'load:registers-under-own-name', f_load.loc(e.node),
                           'an interface is registered under its own name', 'registers %s under %s' % (v[:60], k[:60]))
     ctx.floor('C07.3', nst, 1, 'registration store in load')
 
@@ -311,7 +313,7 @@ def run(ctx):
               'an entry is reported iff it equals the value (plain enum) or shares a bit with it (bitfield)',
               'entry reported=%s in scenario %s' % ((probs[0][2], probs[0][1]) if probs else ('', '')))
     epaths2 = paths_of(repo, f_lue, unroll=2)
-    early = [p for p in epaths2 if any(e.kind == 'loop-break' for e in p.events) or any(e.kind == 'return' and e.loops for e in p.events)]
+    early = [p for p in epaths2 if any(e.kind == 'loop-break' for e in p.events) or any(e.kind == 'return' and e.loops and e.func is f_lue for e in p.events)]
     ctx.check(not early, 'C07.6', 'enum:every-entry-consulted', f_lue.loc(), 'the scan over the enum\'s entries is never left early: every entry is compared with the value',
               'the scan over the entries can stop early (%s): later entries that also match (overlapping bitfield entries, alias values) are dropped' % (early[0].describe()[:160] if early else ''))
     # each iteration's decision is about that iteration's own entry
@@ -349,7 +351,7 @@ def run(ctx):
     f_ge = repo.func('protocol.get_enum')
     for p in paths_of(repo, f_ge):
         if p.outcome[0] == 'return' and norm(p.outcome[1]) != 'None':
-            ctx.check(norm(p.outcome[1]) == "interfaces.get(([interface_name] + enum_path.split('.'))[-2]).enums.get(([interface_name] + enum_path.split('.'))[-1])", 'C07.6', 'get_enum:resolution', f_ge.loc(),
+            ctx.check(norm(p.outcome[1]).replace(' ', '') in ("interfaces.get(([interface_name]+enum_path.split('.'))[-2]).enums.get(([interface_name]+enum_path.split('.'))[-1])",), 'C07.6', 'get_enum:resolution', f_ge.loc(),
                       'an enum path is `enum` (own interface) or `interface.enum`', 'get_enum returns %s' % norm(p.outcome[1])[:160])
 
     # ---- C07.7 unknown interface is undecorated ----------------------------------------------------------------------
@@ -421,8 +423,9 @@ def run(ctx):
         if p.outcome[0] != 'return':
             continue
         has = [v for a, v in p.decisions if a.text == "hasattr(self, 'labels')"]
-        t = norm(p.outcome[1])
-        ctx.check(bool(has) and ('for i in self.labels]' in t and '.join(' in t) == has[0] and 'str(self.value)' in t, 'C07.9', 'display:enum-labels:%s' % (has[0] if has else '?'), f_iv.loc(),
+        from ..sim import deep_norm
+        t = deep_norm(p.outcome[1])
+        ctx.check(bool(has) and (re.search(r'for (\w+) in self\.labels\]', t) is not None and '.join(' in t) == has[0] and 'str(self.value)' in t, 'C07.9', 'display:enum-labels:%s' % (has[0] if has else '?'), f_iv.loc(),
                   'an integer shows its value and, when it has labels, all of them', 'integer display is %s' % t[:120])
     f_nv = repo.func('Arg.Null.value_to_str')
     for p in paths_of(repo, f_nv):
